@@ -550,25 +550,25 @@ def extract_item(block, unit, fired_total, clauses, meta_items, mode='verus'):
     for (w, a, ln) in block.directives:
         if w == 'in':
             cur_segs = [x for x in (s.strip() for s in a.split(' :: ')) if x and x != '.']
-        elif w in ('requires', 'ensures', 'inv', 'dec', 'fndec'):
+        elif w in ('requires', 'ensures', 'inv', 'dec', 'fndec', 'lens'):
             key = tuple(cur_segs)
             g = groups.setdefault(key, {})
             fname = fn_name_of(cur_segs[-1] if cur_segs else block.path[-1])
             n = None
-            if w in ('inv', 'dec'):
+            if w in ('inv', 'dec', 'lens'):
                 ns, _, a = a.partition(' ')
                 n = int(ns)
                 a = a.strip()
             m = CLAUSE_ID.match(a)
             if m:
                 cid_short = '%s.%s' % ({'requires': 'req', 'ensures': 'ens', 'inv': 'loop%s.inv' % n, 'dec': 'loop%s.dec' % n,
-                                        'fndec': 'dec'}[w], m.group(1))
+                                        'fndec': 'dec', 'lens': 'loop%s.ens' % n}[w], m.group(1))
                 expr = m.group(2)
             else:
                 ck = (fname, w, n)
                 counters[ck] = counters.get(ck, 0) + 1
                 cid_short = '%s%s%d' % ({'requires': 'req', 'ensures': 'ens', 'inv': 'loop%s.inv' % n,
-                                         'dec': 'loop%s.dec' % n, 'fndec': 'dec'}[w], '', counters[ck])
+                                         'dec': 'loop%s.dec' % n, 'fndec': 'dec', 'lens': 'loop%s.ens' % n}[w], '', counters[ck])
                 expr = a
             cid = '%s.%s%s.%s' % (unit, blockname, fname, cid_short)
             cl = Clause(cid, w if n is None else '%s' % w, expr.strip().rstrip(','), fname, ln)
@@ -622,7 +622,7 @@ def extract_item(block, unit, fired_total, clauses, meta_items, mode='verus'):
                     if tk[j].kind == 'ident' and tk[j].text == 'in' and tk[j + 1].text.startswith('vx_it') and tk[j + 2].text == ':':
                         itname = tk[j + 1].text
                         break
-                for cl in g.get(('inv', n), []) + g.get(('dec', n), []):
+                for cl in g.get(('inv', n), []) + g.get(('dec', n), []) + g.get(('lens', n), []):
                     if '$it' in cl.text:
                         if itname is None:
                             raise GenError('$it used on a loop without ghost iterator (loop %d)' % n)
@@ -632,6 +632,11 @@ def extract_item(block, unit, fired_total, clauses, meta_items, mode='verus'):
                 if invs:
                     s += tag_lines('invariant', 'kw', '        ')
                     for cl in invs:
+                        s += tag_lines('(' + cl.text + '),', cl.id, '            ')
+                lens = g.get(('lens', n), [])
+                if lens:
+                    s += tag_lines('ensures', 'kw', '        ')
+                    for cl in lens:
                         s += tag_lines('(' + cl.text + '),', cl.id, '            ')
                 for cl in g.get(('dec', n), []):
                     s += tag_lines('decreases ' + cl.text, cl.id, '        ')
